@@ -6,6 +6,7 @@ import (
 	"go/constant"
 	"go/token"
 	"go/types"
+	"math"
 	"os"
 	"regexp"
 	"sort"
@@ -257,6 +258,7 @@ func c19(p *core.Program, r *core.Report) {
 	igcIndexGuards(p, r, r4, initLen)
 
 	wholeFixRule(p, r, "fix-appended-whole")
+	hemisphereRule(p, r, "hemisphere-by-sign-of-angle")
 	utcRule(p, r, "utc-both-sides")
 	sentinelRule(p, r, "index-sentinel-checked", []string{"encoding/igc"}, 1)
 
@@ -875,4 +877,106 @@ func dateFieldOf(fn *ssa.Function, d decCol) string {
 		return ""
 	}
 	return walk(d.call, 0)
+}
+
+// hemisphereRule (C19): the hemisphere letters of the B record follow the sign of the angle itself.
+func hemisphereRule(p *core.Program, r *core.Report, rule string) {
+	r.Rule(rule, "CONSTEVAL: (*Encoder).Encode evaluated with the fix's latitude and longitude bound to -0.5, +0.5, -1.5 and +1.5 degrees hands the B record's two %s fields the letters (S,W), (N,E), (S,W), (N,E): the letter follows the sign of the angle, not the sign of a rounded part of it (whole degrees of an angle in (-1, 0) are the integer 0, which has no sign: London just west of Greenwich would be written east of it)", 4)
+	fn := mustFn(p, r, rule, "encoding/igc", "(*Encoder).Encode")
+	if fn == nil {
+		return
+	}
+	// the string arguments of the Fprintf that writes the B record, in order
+	var letters []ssa.Value
+	for _, c := range eng.Calls(fn) {
+		if !eng.IsCallTo(c, "fmt", "Fprintf") || len(c.Common().Args) < 3 {
+			continue
+		}
+		fc, ok := c.Common().Args[1].(*ssa.Const)
+		if !ok || fc.Value == nil || fc.Value.Kind() != constant.String || !strings.HasPrefix(constant.StringVal(fc.Value), "B") {
+			continue
+		}
+		sl, ok := c.Common().Args[2].(*ssa.Slice)
+		if !ok {
+			continue
+		}
+		type slot struct {
+			idx int64
+			v   ssa.Value
+		}
+		var slots []slot
+		for _, rf := range eng.Referrers(sl.X) {
+			ia, isIA := rf.(*ssa.IndexAddr)
+			if !isIA {
+				continue
+			}
+			k, isK := eng.ConstInt(ia.Index)
+			if !isK {
+				continue
+			}
+			for _, u := range eng.Referrers(ia) {
+				if st, isSt := u.(*ssa.Store); isSt && st.Addr == ssa.Value(ia) {
+					if mi, isMI := st.Val.(*ssa.MakeInterface); isMI {
+						if b, isB := mi.X.Type().Underlying().(*types.Basic); isB && b.Info()&types.IsString != 0 {
+							slots = append(slots, slot{k, mi.X})
+						}
+					}
+				}
+			}
+		}
+		sort.Slice(slots, func(i, j int) bool { return slots[i].idx < slots[j].idx })
+		for _, s := range slots {
+			letters = append(letters, s.v)
+		}
+	}
+	if len(letters) != 2 {
+		r.Lost(rule, short(fn)+"/hemisphere-fields", fmt.Sprintf("the B record's Fprintf has %d string fields, want the two hemisphere letters", len(letters)))
+		return
+	}
+	for _, tc := range []struct {
+		deg      float64
+		lat, lng string
+	}{{-0.5, "S", "W"}, {0.5, "N", "E"}, {-1.5, "S", "W"}, {1.5, "N", "E"}} {
+		ev := &eng.ConstEval{MaxDepth: 5}
+		ev.Override = func(f *ssa.Function, v ssa.Value, args []eng.CVal) (eng.CVal, bool) {
+			switch x := v.(type) {
+			case *ssa.UnOp:
+				// coord[0], coord[1] of the coordinate being written
+				if x.Op == token.MUL && f == fn {
+					if ia, ok := x.X.(*ssa.IndexAddr); ok {
+						if k, isK := eng.ConstInt(ia.Index); isK && (k == 0 || k == 1) && (isCoordType(ia.X.Type()) || isFloatSlice(ia.X.Type())) {
+							return eng.ConstV(constant.MakeFloat64(tc.deg)), true
+						}
+					}
+				}
+			case *ssa.Call:
+				if o := eng.CalleeObj(x); o != nil && o.Pkg() != nil && o.Pkg().Path() == "math" && len(args) == 1 && args[0].K == eng.CConst {
+					if fv, _ := constant.Float64Val(constant.ToFloat(args[0].C)); true {
+						switch o.Name() {
+						case "Abs":
+							return eng.ConstV(constant.MakeFloat64(math.Abs(fv))), true
+						case "Floor":
+							return eng.ConstV(constant.MakeFloat64(math.Floor(fv))), true
+						case "Trunc":
+							return eng.ConstV(constant.MakeFloat64(math.Trunc(fv))), true
+						case "Round":
+							return eng.ConstV(constant.MakeFloat64(math.Round(fv))), true
+						case "Signbit":
+							return eng.ConstV(constant.MakeBool(math.Signbit(fv))), true
+						}
+					}
+				}
+			}
+			return eng.CVal{}, false
+		}
+		top := ev.RunStable(fn, nil)
+		got := [2]string{"?", "?"}
+		for i, lv := range letters {
+			if v := top.Of(lv); v.K == eng.CConst && v.C.Kind() == constant.String {
+				got[i] = constant.StringVal(v.C)
+			}
+		}
+		okL := got[0] == tc.lat && got[1] == tc.lng
+		r.Check(okL, rule, fmt.Sprintf("%s/angle(%+.1f)", short(fn), tc.deg), p.Pos(fn.Pos()), true, "letters "+tc.lat+","+tc.lng, fmt.Sprintf("for an angle of %+.1f degrees the encoder writes the letters (%s, %s), want (%s, %s): the hemisphere does not follow the sign of the angle", tc.deg, got[0], got[1], tc.lat, tc.lng))
+	}
 }
